@@ -1,4 +1,4 @@
-import RV.Proofs.BinRaw
+import RV.Proofs.BinArch
 /-
   C06 — every archive snapshot equals the live state when taken, under any history.
 
@@ -73,6 +73,84 @@ theorem c06_delta_law_partial (v : Variant) (cmp : Nat → Bytes → Bytes → B
             = (applyB init (encFs b ++ (endBytes ++ t2))).val k :=
   delta_law_bytes v cmp hc init h1 h2 t1 t2 rest a b hh1 hh2 ha hb hna hnb ua ub hinit (Or.inr hv)
 
+/-- **archive theorem, index part**: the reader's index of the archive with first snapshot `fs0` and
+    deltas `ds` (as written by `n = ds.length` appends: trailer-chain invariant `offset_prev` of blob k+1 =
+    `offset_next` of blob k = size of delta k + 16, last `offset_next` = 0) has exactly `n + 1` entries,
+    entry 0 at offset 0, entry k+1 right after trailer k; each carries the time field found in its blob -/
+theorem c06_index_count_offsets (v : Variant) (hdr : Bytes) (fs0 : List Field) (ds : List (List Field))
+    (h : ArchOK hdr fs0 ds) :
+    index v (archI hdr fs0 ds) = fixTimes v (archEntries fs0 ds) ∧
+    (archEntries fs0 ds).length = ds.length + 1 := by
+  refine ⟨index_intact v hdr fs0 ds h, ?_⟩
+  simp [archEntries, chainEntries_length]
+
+/-- appending one more delta to a well-formed archive is again one (induction step of the archive theorem) -/
+theorem c06_append_keeps_chain (hdr : Bytes) (fs0 : List Field) (ds : List (List Field)) (dn : List Field) :
+    overwrite (archI hdr fs0 ds) ((archI hdr fs0 ds).length - 12) (pendingData ds dn)
+      = archI hdr fs0 (ds ++ [dn]) :=
+  append_shape hdr fs0 ds dn
+
+/-- **archive theorem — snapshots, full statement** (source with fixes/F1.diff: `v.f1 = true`): for every
+    history `fs0, bs` (fields may appear, vanish, grow, shrink, reappear), loading snapshot `j+1` of the
+    archive gives id by id the state `bs[j]` that was appended -/
+theorem c06_archive_snapshot (v : Variant) (hf1 : v.f1 = true) (cmp : Nat → Bytes → Bytes → Bool)
+    (hc : CmpExact cmp) (init : State) (hdr : Bytes) (fs0 : List Field) (bs : List (List Field))
+    (h : HistOK v cmp hdr fs0 bs) (j : Nat) (b : List Field) (hj : bs[j]? = some b)
+    (hinit : ∀ f ∈ fs0, (∀ g ∈ b, g.ty ≠ f.ty) → init.val f.ty = []) :
+    ∃ st, snapshot init (archOf v cmp hdr fs0 bs)
+            ((index v (archOf v cmp hdr fs0 bs)).map (·.off)) (j + 1) = some st ∧
+          ∀ k, st.val k = (applyF init b).val k :=
+  archive_snapshot v cmp hc init hdr fs0 bs h (Or.inl hf1) j b hj hinit
+
+/-- what holds of the pinned source (F1): the same for histories in which no non-empty field of the
+    first snapshot is ever absent later -/
+theorem c06_archive_snapshot_partial (v : Variant) (cmp : Nat → Bytes → Bytes → Bool)
+    (hc : CmpExact cmp) (init : State) (hdr : Bytes) (fs0 : List Field) (bs : List (List Field))
+    (h : HistOK v cmp hdr fs0 bs) (hnv : ∀ b ∈ bs, ¬ Vanishes fs0 b)
+    (j : Nat) (b : List Field) (hj : bs[j]? = some b)
+    (hinit : ∀ f ∈ fs0, (∀ g ∈ b, g.ty ≠ f.ty) → init.val f.ty = []) :
+    ∃ st, snapshot init (archOf v cmp hdr fs0 bs)
+            ((index v (archOf v cmp hdr fs0 bs)).map (·.off)) (j + 1) = some st ∧
+          ∀ k, st.val k = (applyF init b).val k :=
+  archive_snapshot v cmp hc init hdr fs0 bs h (Or.inr hnv) j b hj hinit
+
+/-- **archive theorem — count**: `n` appends, `n + 1` snapshots (`_partial`: under F1 only without vanishing
+    fields; with `v.f1 = true` unconditionally) -/
+theorem c06_archive_count_partial (v : Variant) (cmp : Nat → Bytes → Bytes → Bool) (hdr : Bytes) (fs0 : List Field)
+    (bs : List (List Field)) (h : HistOK v cmp hdr fs0 bs) (hv : v.f1 = true ∨ ∀ b ∈ bs, ¬ Vanishes fs0 b) :
+    (index v (archOf v cmp hdr fs0 bs)).length = bs.length + 1 :=
+  archive_count v cmp hdr fs0 bs h hv
+
+/-- **archive theorem — times, full statement** (source with fixes/F11.diff: `v.f11 = true`): the index
+    reports for snapshot `j+1` the time of the appended state -/
+theorem c06_archive_time (v : Variant) (hf11 : v.f11 = true) (cmp : Nat → Bytes → Bytes → Bool) (hc : CmpExact cmp)
+    (hdr : Bytes) (fs0 : List Field) (bs : List (List Field)) (h : HistOK v cmp hdr fs0 bs)
+    (hv : v.f1 = true ∨ ∀ b ∈ bs, ¬ Vanishes fs0 b)
+    (j : Nat) (b : List Field) (hj : bs[j]? = some b) (t0 tb : Field)
+    (h0 : t0 ∈ fs0) (hb : tb ∈ b) (h0t : t0.ty = T_ID) (hbt : tb.ty = T_ID) :
+    ∃ off, (index v (archOf v cmp hdr fs0 bs))[j + 1]? = some ⟨off, some tb.data⟩ := by
+  obtain ⟨off, ho⟩ := archive_time v cmp hdr fs0 bs h hv j b hj t0 tb h0 hb h0t hbt
+  refine ⟨off, ?_⟩
+  rw [ho, hf11]
+  by_cases hs : sameF cmp t0 tb = true
+  · have : t0.data = tb.data := by
+      simp only [sameF, Bool.and_eq_true] at hs
+      exact hc _ _ _ hs.2
+    simp [hs, this]
+  · simp [hs]
+
+/-- what holds of the pinned source (F11, simulationarchive.c:222,243): the time is right whenever the
+    encoder saw it change against the first snapshot; otherwise the slot is never written (`none`:
+    the reader reports 0, or garbage beyond the first 1024 slots) -/
+theorem c06_archive_time_partial (v : Variant) (cmp : Nat → Bytes → Bytes → Bool)
+    (hdr : Bytes) (fs0 : List Field) (bs : List (List Field)) (h : HistOK v cmp hdr fs0 bs)
+    (hv : v.f1 = true ∨ ∀ b ∈ bs, ¬ Vanishes fs0 b)
+    (j : Nat) (b : List Field) (hj : bs[j]? = some b) (t0 tb : Field)
+    (h0 : t0 ∈ fs0) (hb : tb ∈ b) (h0t : t0.ty = T_ID) (hbt : tb.ty = T_ID) :
+    ∃ off, (index v (archOf v cmp hdr fs0 bs))[j + 1]? =
+      some ⟨off, if sameF cmp t0 tb then (if v.f11 then some t0.data else none) else some tb.data⟩ :=
+  archive_time v cmp hdr fs0 bs h hv j b hj t0 tb h0 hb h0t hbt
+
 /-- non-vacuity: a two-field serialisation, one field changed, one vanished, one new -/
 example :
     let a : List Field := [⟨0, 2, [1, 2]⟩, ⟨104, 3, [7, 8, 9]⟩]
@@ -87,5 +165,31 @@ example :
   · intro f hf
     simp only [List.mem_cons, List.not_mem_nil, or_false] at hf
     rcases hf with rfl | rfl <;> exact ⟨rfl, by decide, by decide, by decide⟩
+
+/-- non-vacuity of the archive theorem: a concrete history satisfying `HistOK` (time 5 at both snapshots, a
+    setting changed in between), for which the delta carries no time field — the F11 situation -/
+example :
+    let hdr : Bytes := [82, 69, 66, 79] ++ List.replicate 60 0
+    let fs0 : List Field := [⟨0, 8, [0, 0, 0, 0, 0, 0, 20, 64]⟩, ⟨1, 1, [1]⟩, ⟨125, 4, [3, 0, 0, 0]⟩]
+    let b : List Field := [⟨0, 8, [0, 0, 0, 0, 0, 0, 20, 64]⟩, ⟨1, 1, [2]⟩, ⟨125, 4, [3, 0, 0, 0]⟩]
+    HistOK Variant.current (fun _ p q => p == q) hdr fs0 [b] ∧ ¬ Vanishes fs0 b ∧
+    tOf (diffF Variant.current (fun _ p q => p == q) fs0 b) none = none := by
+  refine ⟨⟨⟨rfl, by decide⟩, ⟨?_, ?_, ?_⟩, ⟨?_, ?_, ?_, ?_⟩, by decide, by decide, ?_⟩, ?_, by decide⟩
+  any_goals
+    (intro f hf; simp only [List.mem_cons, List.not_mem_nil, or_false] at hf
+     rcases hf with rfl | rfl | rfl <;> first | exact ⟨rfl, by decide, by decide, by decide⟩ | decide)
+  · intro b' hb'
+    simp only [List.mem_singleton] at hb'
+    subst hb'
+    refine ⟨⟨?_, ?_, ?_⟩, by decide, ?_, by decide⟩
+    any_goals
+      (intro f hf; simp only [List.mem_cons, List.not_mem_nil, or_false] at hf
+       rcases hf with rfl | rfl | rfl <;> first | exact ⟨rfl, by decide, by decide, by decide⟩ | decide)
+  · rintro ⟨f, hf, hne, hno⟩
+    simp only [List.mem_cons, List.not_mem_nil, or_false] at hf
+    rcases hf with rfl | rfl | rfl
+    · exact hno _ (List.mem_cons_self ..) rfl
+    · exact hno ⟨1, 1, [2]⟩ (by simp) rfl
+    · exact hno ⟨125, 4, [3, 0, 0, 0]⟩ (by simp) rfl
 
 end RV.Bin
